@@ -14,9 +14,13 @@
    Invariants: an explicit conforming document builds to itself (BuilderSound), and for every
    complete document and option set HtmlDom.HtmlEq(Build(in), Build(MachineOut(in)))  (D => A).
    Constructs on which the *real code* is known to violate the property (known/C03.txt) are
-   excluded by the guards marked X1..X7; everything else is enumerated. *)
+   excluded by the guards marked X1, X5..X7; everything else is enumerated.  The guards X1 (most of it),
+   X3 and X4 were lifted after the fixes c371690 675df8b 0c8c9ee c6de520 e347d35 8649a6a; the behaviour
+   before each fix is kept as a switch in Bugs: the negative configurations HtmlMachine_neg_*.cfg set one
+   switch each and TLC must then report a violation of DesignRefines (checked by tools/props/c03.py). *)
 EXTENDS HtmlDom, Json
-CONSTANTS MaxNodes, MaxDepth, DocMode, Vocab, TextKinds, OptSets
+CONSTANTS MaxNodes, MaxDepth, DocMode, Vocab, TextKinds, OptSets,
+          Bugs      \* wrong-design switches: behaviours of the token loop before the fix: commits (must violate)
 VARIABLES toks, stack, nodes, solid, prev
 vars == <<toks, stack, nodes, solid, prev>>
 
@@ -79,34 +83,33 @@ LastSolid == solid
 Prev == prev
 
 (* end tags the real minifier drops without look-ahead *)
-AlwaysOmit == {"thead", "tbody", "tfoot", "tr", "th", "td", "option", "dd", "dt", "li", "rb", "rt", "rtc", "rp"}
+AlwaysOmit == {"thead", "tbody", "tfoot", "tr", "th", "td", "option", "dd", "dt", "li", "rb", "rtc"}    \* (rt, rp: look-ahead since c6de520)
 WsEdgeL(x) == x # <<>> /\ IsWs(x[1])
 WsEdgeR(x) == x # <<>> /\ IsWs(x[Len(x)])
 
 (* ---- known-defect constructs excluded from generation (narrow, syntactic) ---- *)
-(* X1: a script-supporting element (or, in ruby, anything but rt/rp) directly after an element whose
-       end tag is dropped unconditionally or by the optgroup look-ahead: the sibling moves inside *)
-X1(t) == \/ /\ LastSolid.k = "E" /\ LastSolid.t \in (AlwaysOmit \cup {"optgroup"})
-            /\ (t \in ScriptSupporting \/ (LastSolid.t \in {"rt", "rp"} /\ t \notin {"rt", "rp"}))
+(* X1: </optgroup> is omitted by look-ahead before anything that is not an option, and </colgroup> is always
+       dropped: a following script-supporting element moves inside.  (Lifted by e347d35 / c6de520 / 0c8c9ee
+       for the unconditionally omitted end tags, for content after </rt> and for a comment after </optgroup>.) *)
+CommentSinceSolid ==
+  LET idx == {i \in 1..Len(toks) : ~(toks[i].k = "M" \/ (toks[i].k = "T" /\ AllWs(toks[i].x)))}
+      j == IF idx = {} THEN 0 ELSE Max(idx)
+  IN \E k \in (j + 1)..Len(toks) : toks[k].k = "M"
+X1(t) == \/ LastSolid.k = "E" /\ LastSolid.t = "optgroup" /\ t \in ScriptSupporting
+         \* the look-ahead of e347d35 steps over white space only: a comment before the script hides it
+         \/ LastSolid.k = "E" /\ LastSolid.t \in AlwaysOmit /\ t \in ScriptSupporting /\ CommentSinceSolid
          \/ LastSolid.k = "E" /\ LastSolid.t = "colgroup" /\ t = "template"     \* </colgroup> is always dropped
-X1Text == LastTok.k = "E" /\ LastTok.t \in {"rt", "rp"}            \* base text after </rt>
-X1Comment == LastSolid.k = "E" /\ LastSolid.t = "optgroup"         \* </optgroup><!-- --><option>
-(* X3: </p> directly before the end tag of an autonomous custom element *)
-X3(t) == t = "my-el" /\ LastSolid.k = "E" /\ LastSolid.t = "p"
-(* X4: white space that the minifier drops because it treats noscript as a block and because a template
-       end tag sets omitSpace: noscript is generated only between block boundaries and without
-       white-space-edged text inside; after </template> no white space may lead the following text *)
-IsBlockTok(tk) == tk.k = "none" \/ (tk.k \in {"S", "E"} /\ tk.t \in BlockEls)
-AfterNoscript == solid.k = "E" /\ solid.t = "noscript"
-AfterTemplate == prev.k = "E" /\ prev.t = "template"
-InNoscript == \E i \in 1..Len(stack) : stack[i] = "noscript"
-X4Open(t) == \/ (t = "noscript" /\ ~IsBlockTok(solid))
-             \/ (AfterNoscript /\ t \notin BlockEls)
-             \/ (AfterTemplate /\ t \notin (BlockEls \cup AtomEls))
-X4Close(t) == (AfterNoscript \/ AfterTemplate) /\ t \notin BlockEls
-X4Text(x) == \/ (AfterNoscript /\ ~AllWs(x))
-             \/ (AfterTemplate /\ WsEdgeL(x))
-             \/ (InNoscript /\ (WsEdgeL(x) \/ WsEdgeR(x)))
+(* X3 (</p> before a custom element end tag) and the noscript part of X4 were lifted by 8649a6a and c371690.
+   X4 (reduced after 675df8b): the omitSpace flag set *inside* a template (by a trailing blank or a block end tag
+   of its content) still leaks out of the display:none template and eats the leading blank of the text that
+   follows </template>.  Excluded: leading white space after the end tag of a non-empty template. *)
+AfterTemplate ==     \* ... or of a non-empty noscript (display:none when scripting is enabled: same leak)
+  /\ prev.k = "E" /\ prev.t \in {"template", "noscript"}
+  /\ LET j == Max({i \in 1..Len(toks) : toks[i].k = "E" /\ toks[i].t = prev.t})
+     IN ~(j >= 2 /\ toks[j - 1].k = "S" /\ toks[j - 1].t = prev.t)
+X4Open(t) == AfterTemplate /\ t \notin (BlockEls \cup AtomEls)
+X4Close(t) == AfterTemplate /\ t \notin BlockEls
+X4Text(x) == AfterTemplate /\ WsEdgeL(x)
 (* X5: attribute-less colgroup that is empty or follows another colgroup *)
 X5Start(h) == ~h /\ LastSolid.k = "E" /\ LastSolid.t = "colgroup"
 X5End == LastTok.k = "S" /\ LastTok.t = "colgroup" /\ ~LastTok.h     \* a col must come first
@@ -143,7 +146,7 @@ Open(t, h) ==
 Close ==
   /\ stack # <<>>
   /\ LET t == Top(stack) IN
-     /\ ~X3(t) /\ ~X4Close(t)
+     /\ ~X4Close(t)
      /\ (t = "colgroup" => ~X5End)
      /\ (t \in {"script", "style"} => ~X7)
      /\ (t \in {"dl", "ruby", "html", "head", "title"}
@@ -163,7 +166,6 @@ Text(x) ==
             /\ Top(stack) \notin {"html", "head"} \/ AllWs(x)
   /\ (DocMode => stack # <<>>)
   /\ ~X4Text(x) /\ ~X5End
-  /\ (~AllWs(x) => ~X1Text)
   /\ (Top(stack) = "option" => ~AllWs(x))
   /\ (Top(stack) = "pre" /\ LastTok.k = "S" => x[1] # 10)               \* a leading newline of pre is dropped by the parser
   /\ toks' = Append(toks, T(x))
@@ -175,7 +177,7 @@ Comment ==
   /\ nodes < MaxNodes
   /\ Top(stack) \notin RawKinds
   /\ (DocMode => stack # <<>> /\ Top(stack) # "html")
-  /\ ~X1Comment /\ ~X5End
+  /\ ~X5End
   /\ toks' = Append(toks, M)
   /\ UNCHANGED <<solid, prev>>
   /\ nodes' = nodes + 1
@@ -198,7 +200,7 @@ Complete == stack = <<>> /\ toks # <<>>
 (* ---- MACHINE: transcription of html/html.go (traits from html/table.go; design level) ---- *)
 MBlock == {"address", "article", "aside", "blockquote", "br", "caption", "col", "colgroup", "dd", "details", "div",
            "dl", "dt", "fieldset", "figcaption", "figure", "footer", "form", "h1", "h2", "h3", "h4", "h5", "h6",
-           "head", "header", "hgroup", "hr", "html", "legend", "li", "main", "menu", "nav", "noscript", "ol",
+           "head", "header", "hgroup", "hr", "html", "legend", "li", "main", "menu", "nav", "ol",
            "option", "p", "pre", "section", "style", "summary", "table", "tbody", "td", "tfoot", "th", "thead",
            "title", "tr", "ul"}
 MObject == {"button", "canvas", "iframe", "img", "input", "meter", "object", "progress", "q", "rt", "select", "svg",
@@ -211,7 +213,9 @@ MRaw == {"iframe", "math", "script", "style", "svg", "textarea"}
 MOmitP == {"address", "article", "aside", "blockquote", "details", "div", "dl", "fieldset", "figcaption", "figure",
            "footer", "form", "h1", "h2", "h3", "h4", "h5", "h6", "header", "hr", "main", "menu", "nav", "ol", "p",
            "pre", "section", "table", "ul"}
-MKeepP == {"a", "audio", "canvas", "del", "ins", "label", "map", "noscript", "video"}
+MKeepP == {"a", "audio", "canvas", "del", "ins", "label", "map", "noscript", "video", "slot"}
+IsMBlock(t) == t \in MBlock \/ ("noscript-block" \in Bugs /\ t = "noscript")          \* c371690
+MKnown == MBlock \cup MObject \cup MNormalOnly \cup MRaw \cup MKeepP              \* elements of tagMap (Traits # 0)
 
 Collapse(x) ==
   FoldLeft(LAMBDA a, c : IF IsWs(c) THEN (IF a # <<>> /\ a[Len(a)] = 32 THEN a ELSE Append(a, 32)) ELSE Append(a, c),
@@ -226,20 +230,37 @@ MachineOut(in, o) ==
         ELSE LET t == in[j] IN
           CASE t.k = "T" -> IF AllWs(t.x) THEN LA[j + 1] ELSE "keep"
             [] t.k = "M" -> LA[j + 1]
-            [] t.k = "S" -> IF o.kws THEN "keep" ELSE IF t.t \in MBlock THEN "trim" ELSE "keep"
-            [] OTHER     -> IF o.kws THEN "keep" ELSE IF t.t \in MBlock THEN "trim" ELSE LA[j + 1]
+            [] t.k = "S" -> IF o.kws THEN "keep" ELSE IF IsMBlock(t.t) THEN "trim" ELSE "keep"
+            [] OTHER     -> IF o.kws THEN "keep" ELSE IF IsMBlock(t.t) THEN "trim" ELSE LA[j + 1]
       (* look-ahead for </p> *)
       PL[j \in 1..(n + 1)] ==
         IF j > n THEN TRUE
         ELSE LET t == in[j] IN
           CASE t.k = "T" -> IF AllWs(t.x) THEN PL[j + 1] ELSE FALSE
-            [] t.k = "E" -> t.t \notin MKeepP
+            [] t.k = "E" -> IF "p-unknown" \in Bugs THEN t.t \notin (MKeepP \ {"slot"})            \* 8649a6a
+                            ELSE t.t \in MKnown /\ t.t \notin MKeepP
             [] t.k = "S" -> t.t \in MOmitP
+            [] OTHER     -> FALSE
+      (* look-ahead for </rt> and </rp> (c6de520) *)
+      RL[j \in 1..(n + 1)] ==
+        IF j > n THEN TRUE
+        ELSE LET t == in[j] IN
+          CASE t.k = "T" -> IF AllWs(t.x) THEN RL[j + 1] ELSE FALSE
+            [] t.k = "S" -> t.t \in {"rt", "rp"}
+            [] t.k = "E" -> t.t \in {"ruby", "rtc"}
+            [] OTHER     -> FALSE
+      (* is the next token after white space a script-supporting start tag? (e347d35) *)
+      SL[j \in 1..(n + 1)] ==
+        IF j > n THEN FALSE
+        ELSE LET t == in[j] IN
+          CASE t.k = "T" -> IF AllWs(t.x) THEN SL[j + 1] ELSE FALSE
+            [] t.k = "S" -> t.t \in {"script", "template"}
             [] OTHER     -> FALSE
       (* look-ahead for </optgroup> *)
       OL[j \in 1..(n + 1)] ==
         IF j > n THEN TRUE
-        ELSE IF in[j].k = "T" THEN OL[j + 1] ELSE in[j].t # "option"
+        ELSE IF in[j].k = "T" \/ (in[j].k = "M" /\ "optgroup-comment" \notin Bugs) THEN OL[j + 1]       \* 0c8c9ee
+        ELSE in[j].t # "option"
       Step(s, i) ==
         LET t == in[i] IN
         IF s.drop > 0 THEN [s EXCEPT !.drop = s.drop - 1]
@@ -260,18 +281,22 @@ MachineOut(in, o) ==
               s1 == [s EXCEPT !.skip = FALSE, !.raw = t.t \in MRaw, !.pre = IF t.t = "pre" THEN TRUE ELSE s.pre]
           IN IF emptyRaw THEN [s1 EXCEPT !.drop = 1, !.raw = FALSE]
              ELSE IF ~t.h /\ ((~o.kdoc /\ t.t \in {"html", "head", "body"}) \/ t.t = "colgroup") THEN s1
-             ELSE LET os1 == IF o.kws \/ t.t \in MObject THEN FALSE ELSE IF t.t \in MBlock THEN TRUE ELSE s1.os
+             ELSE LET os1 == IF o.kws \/ t.t \in MObject THEN FALSE ELSE IF IsMBlock(t.t) THEN TRUE ELSE s1.os
                       os2 == IF t.t \in MNormalOnly /\ i < n /\ in[i + 1].k = "E" /\ in[i + 1].t = t.t THEN FALSE ELSE os1
                   IN [s1 EXCEPT !.os = os2, !.out = Append(s1.out, t),
                                 !.skip = t.t \in {"select", "optgroup"} /\ IsText(i + 1)]
         ELSE \* end tag
           LET s1 == [s EXCEPT !.skip = FALSE, !.raw = FALSE, !.pre = IF t.t = "pre" THEN FALSE ELSE s.pre,
-                              !.os = IF t.t = "template" THEN TRUE ELSE s.os]
+                              !.os = IF t.t = "template" /\ "template-os" \in Bugs THEN TRUE ELSE s.os]   \* 675df8b
           IN IF (~o.kdoc /\ t.t \in {"html", "head", "body"}) \/ t.t = "colgroup" THEN s1
-             ELSE LET omit == ~o.ket /\ (t.t \in AlwaysOmit \/ (t.t = "p" /\ PL[i + 1]) \/ (t.t = "optgroup" /\ OL[i + 1]))
+             ELSE LET listed == t.t \in AlwaysOmit \/ ("rt-always" \in Bugs /\ t.t \in {"rt", "rp"})
+                      omit == ~o.ket /\ (\/ listed /\ ("omit-before-script" \in Bugs \/ ~SL[i + 1])
+                                         \/ ~listed /\ t.t \in {"rt", "rp"} /\ RL[i + 1]
+                                         \/ t.t = "p" /\ PL[i + 1]
+                                         \/ t.t = "optgroup" /\ OL[i + 1])
                       s2 == IF omit THEN s1
                             ELSE [s1 EXCEPT !.os = IF o.kws \/ t.t \in MObject THEN FALSE
-                                                   ELSE IF t.t \in MBlock THEN TRUE ELSE s1.os,
+                                                   ELSE IF IsMBlock(t.t) THEN TRUE ELSE s1.os,
                                             !.out = Append(s1.out, t)]
                   IN [s2 EXCEPT !.skip = t.t \in {"option", "optgroup"} /\ IsText(i + 1)]
   IN FoldLeft(Step, [os |-> TRUE, pre |-> FALSE, raw |-> FALSE, skip |-> FALSE, drop |-> 0, out |-> <<>>],
@@ -431,10 +456,12 @@ Explicit(in) ==
 (* ---- invariants ---- *)
 Frag == ~DocMode
 (* a conforming, fully tagged document builds to itself *)
-BuilderSound == Complete => HtmlEq(Explicit(toks), Build(toks, Frag))
+(* (events are wrapped in a root element, as the harness does, so that text after the last tag is compared) *)
+Wrap(ev) == <<EvO("#root", FALSE)>> \o ev \o <<EvC("#root")>>
+BuilderSound == Complete => HtmlEq(Wrap(Explicit(toks)), Wrap(Build(toks, Frag)))
 (* D => A: the design satisfies the property relation for every option set *)
 DesignRefines ==
-  Complete => \A o \in OptSets : HtmlEq(Build(toks, Frag), Build(MachineOut(toks, o), Frag))
+  Complete => \A o \in OptSets : HtmlEq(Wrap(Build(toks, Frag)), Wrap(Build(MachineOut(toks, o), Frag)))
 (* GEN: complete documents leave TLC as JSON lines (compact token tuples [k, tag, hasAttr, bytes]; one
    string per line, because PrintT wraps tuples that are longer than 80 columns),
    Emit together with the design's predicted output per option set (used for DRIFT reporting) *)
@@ -472,5 +499,13 @@ VocabTable == {"table", "tbody", "tr", "td", "colgroup", "col", "script", "templ
 VocabList == {"ul", "li", "dl", "dt", "dd", "p", "div", "script", "span", "a"}
 VocabSelect == {"select", "optgroup", "option", "script", "template", "span", "p", "pre"}
 VocabInline == {"span", "a", "img", "button", "textarea", "br", "p", "my-el"}
+VocabNeg == {"p", "span", "noscript", "template", "my-el", "ruby", "rt", "ul", "li", "script", "select", "optgroup", "option"}
+NoBugs == {}
+BugNoscript == {"noscript-block"}
+BugTemplate == {"template-os"}
+BugRt == {"rt-always"}
+BugScript == {"omit-before-script"}
+BugPUnknown == {"p-unknown"}
+BugOptgroup == {"optgroup-comment"}
 VocabDoc == {"html", "head", "body", "title", "meta", "style", "script", "div", "p", "span", "ul", "li", "a", "img"}
 =============================================================================
